@@ -2971,7 +2971,9 @@ def make_class(
     name = unicodedata.normalize("NFKC", name)
 
     if isinstance(attrs, dict):
-        cls_dict = attrs
+        # Work on a copy: the hook names are popped below and the caller's
+        # dict must stay as it was.
+        cls_dict = dict(attrs)
     elif isinstance(attrs, (list, tuple)):
         cls_dict = {a: attrib() for a in attrs}
     else:
